@@ -28,12 +28,13 @@ def Lst(*shapes):
     return Sh('lst', *shapes)
 
 
-def SeqOf():
-    return Sh('seq')
+def SeqOf(elem=None):
+    """list of symbolic length; elem=Comp(kind) makes its elements protocol components"""
+    return Sh('seq', elem)
 
 
-def TupOf():
-    return Sh('tupof')
+def TupOf(elem=None):
+    return Sh('tupof', elem)
 
 
 def MapOf():
@@ -80,7 +81,7 @@ def build(sh, it, hint='v'):
     if k == 'bool':
         return SBool(ctx.fresh(z3.BoolSort(), hint))
     if k == 'any':
-        return SAny(ctx.fresh(PV, hint))
+        return it.fresh_any(hint)
     if k == 'none':
         return None
     if k == 'const':
@@ -100,8 +101,16 @@ def build(sh, it, hint='v'):
     if k == 'lst':
         return VList([build(s, it, '%s.%d' % (hint, i)) for i, s in enumerate(sh.a)])
     if k == 'seq':
-        return VList(seq=ctx.fresh(pv.PVSeq, hint))
+        if sh.a and sh.a[0] is not None and sh.a[0].kind == 'str':
+            return VList(seq=ctx.fresh(z3.SeqSort(z3.StringSort()), hint), elem='str')
+        l = VList(seq=ctx.fresh(pv.PVSeq, hint))
+        if sh.a and sh.a[0] is not None and sh.a[0].kind == 'comp':
+            kind = sh.a[0].a[0]
+            l.wrap = lambda t, kind=kind: VComp(kind, t)
+        return l
     if k == 'tupof':
+        if sh.a and sh.a[0] is not None and sh.a[0].kind == 'str':
+            return VSeqIter(ctx.fresh(z3.SeqSort(z3.StringSort()), hint), elem='str')
         return VSeqIter(ctx.fresh(pv.PVSeq, hint))
     if k == 'map':
         return VDict(arr=ctx.fresh(pv.PVArr, hint))
@@ -147,7 +156,8 @@ def _const(v):
 class Contract:
     def __init__(self, id, file, func, serves, params, requires=(), ensures=None, raises=None, assigns=(),
                  loops=None, inline=(), let=None, returns=None, ghost=None, notes=(), cases=None,
-                 trusted=False, pure=False, setup=None, replay=None, exc_fields=None):
+                 trusted=False, pure=False, setup=None, replay=None, exc_fields=None, defs=None,
+                 at_return=None, known=None):
         self.id, self.file, self.func, self.serves = id, file, func, list(serves)
         self.params = dict(params)
         self.requires = list(requires)
@@ -166,12 +176,15 @@ class Contract:
         self.setup = setup          # python callable(interp, env) run after the pre-state is built
         self.replay = replay        # name of a replay builder
         self.exc_fields = exc_fields or {}
+        self.defs = dict(defs or {})   # user-defined spec predicates: name -> 'lambda ...'
+        self.at_return = dict(at_return or {})   # return ordinal -> {name: clause over locals}
+        self.known = dict(known or {})  # obligation name -> predicate (history) excluded by a known finding
 
     def variant(self, name, **over):
         c = Contract(self.id + '[' + name + ']', self.file, self.func, self.serves, self.params,
                      self.requires, self.ensures, self.raises, self.assigns, self.loops, self.inline, self.let,
                      self.returns, self.ghost, self.notes, None, self.trusted, self.pure, self.setup, self.replay,
-                     self.exc_fields)
+                     self.exc_fields, self.defs, self.at_return, self.known)
         for k, v in over.items():
             if k == 'params':
                 c.params = dict(self.params)
